@@ -1022,6 +1022,7 @@ class Parsent(object):
         while not self.started:
             if self.msg:
                 self.started = True
+                self.closed = False  # a close seen while idle was of the previous connection
                 break
             (yield None)
 
